@@ -22,6 +22,8 @@ from vt import core
 from vt.main import decide
 import peggen
 import pegdump
+import mmdump
+from props import build_common as bc      # read-only: evaluation of Build.v's symbolic values, comparison with the runner's dump
 
 IMPORTS = ("From TxV Require Import Core.Base Core.Show Model.PegSyntax Model.Peg Model.PegShow Model.PegWsDefs.\n"
            "Open Scope string_scope.")
@@ -38,6 +40,19 @@ Definition c22_case (g : grammar) (c : config) (tbl tbl' : list ((nat * nat) * n
   show_bool (top_eof g).
 """
 FUEL = 120
+BUILD_IMPORTS = ("From TxV Require Import Core.Base Core.Show Model.PegSyntax Model.Peg Model.PegShow Model.Build Model.PegWsDefs "
+                 "Model.BuildShiftDefs.\nOpen Scope string_scope.")
+BUILD_DEFS = """
+Definition c22_build (g : grammar) (c : config) (mm : list ninfo) (tbl tbl' : list ((nat * nat) * nat)) (fuel : nat)
+           (a ins b : list N) : string :=
+  show_build g c mm tbl [] true false fuel (a ++ b)%list ++ "@@" ++
+  show_build g c mm tbl' [] true false fuel (a ++ ins ++ b)%list ++ "@@" ++
+  match run g c (orc_of tbl) false fuel (a ++ b)%list with
+  | Parsed r => show_bool (fits_res (List.length a) r)
+  | _ => "-"
+  end.
+"""
+BUILD_SAMPLE = 140
 DEFAULT_WS = "\t\n\r "
 
 POS_RE = re.compile(r"@(\d+)\+")
@@ -366,7 +381,7 @@ def run(chk):
             defs.append("Definition g%d : grammar := %s.\nDefinition c%d : config := %s." % (
                 ci, pegdump.coq_grammar(d), ci, pegdump.coq_config(d)))
     vals, errs = core.coq_eval("C22", IMPORTS, exprs, defs="\n".join(defs), shard=120)
-    disagreements, failures, static_failures = [], [], []
+    disagreements, failures, static_failures, build_sample = [], [], [], []
     if errs:
         disagreements.append({"case": "coq evaluation", "model": errs[:2]})
     mvals = dict(zip(index, vals))
@@ -454,6 +469,8 @@ def run(chk):
                         chk.stat("outside ins_wf")
                 if t1.startswith("P:") and not m1["ok"] and m1["err"] == "syntax" or (t1.startswith("E:") and m1["ok"]):
                     disagreements.append({"case": cinfo, "impl": [t1, m1], "model": "textX-level and Arpeggio-level acceptance differ"})
+                if thm_applies and res.get("mm") is not None and not (set(case["opts"]) & {"auto_init_attributes", "use_regexp_group"}):
+                    build_sample.append((ci, ri, mi))
                 # ---- memoization on (C22_invariant_memo_partial): same statement with the packrat cache
                 if kind == "ws" and thm_applies and ctx_constant(d) and not t0.startswith("X:"):
                     chk.stat("theorem C22_invariant_memo applies (ctx_constant)")
@@ -501,6 +518,63 @@ def run(chk):
                         "theorem C22_invariant_partial covers whitespace insertion with memoization off; Comment-text insertion and memoization on are "
                         "covered by correspondence and oracle only",
                         "the whitespace mode per token is observed by wrapping arpeggio.Match.parse inside the runner process"]
+    # ---- the MODEL: Build.v on both parse results (Coq) vs the implementation's two model dumps, on a sample
+    #      of the cases in which an invariance theorem applies (C22_model_unchanged_partial / _comment_)
+    step = max(1, len(build_sample) // BUILD_SAMPLE)
+    sample = build_sample[::step][:BUILD_SAMPLE]
+    bdefs, bexprs, used = [BUILD_DEFS], [], set()
+    for ci, ri, mi in sample:
+        res = results[ci]
+        run_, m = res["runs"][ri], res["runs"][ri]["muts"][mi]
+        text, k, ins = run_["text"], m["k"], m["ins"]
+        if ci not in used:
+            used.add(ci)
+            bdefs.append("Definition g%d : grammar := %s.\nDefinition c%d : config := %s.\nDefinition m%d : list ninfo := %s." % (
+                ci, pegdump.coq_grammar(res["dump"]), ci, pegdump.coq_config(res["dump"]), ci, mmdump.coq_mm(res["mm"])))
+        bexprs.append("c22_build g%d c%d m%d %s %s %d %s %s %s" % (
+            ci, ci, ci, pegdump.coq_table(run_["table"]), pegdump.coq_table(m["table"]), FUEL,
+            pegdump.coq_str(text[:k]), pegdump.coq_str(ins), pegdump.coq_str(text[k:])))
+    bvals, berrs = core.coq_eval("C22b", BUILD_IMPORTS, bexprs, defs="\n".join(bdefs), shard=40) if bexprs else ([], [])
+    if berrs:
+        disagreements.append({"case": "coq evaluation (Build)", "model": berrs[:2]})
+
+    def _nopos(v):
+        if isinstance(v, dict):
+            if "cls" in v:
+                return {"cls": v["cls"], "attrs": [[a, _nopos(x)] for a, x in v["attrs"]]}
+            if "l" in v:
+                return {"l": [_nopos(x) for x in v["l"]]}
+        return v
+
+    for (ci, ri, mi), bv in zip(sample, bvals):
+        res = results[ci]
+        run_, m = res["runs"][ri], res["runs"][ri]["muts"][mi]
+        cinfo = {"grammar": cases[ci]["grammar"], "opts": cases[ci]["opts"], "input": run_["text"], "k": m["k"], "ins": m["ins"]}
+        if bv is None:
+            disagreements.append({"case": cinfo, "impl": "Build sample", "model": None})
+            continue
+        p0, p1, fl = bv.split("@@")
+        o0, o1 = bc.model_outcome(p0), bc.model_outcome(p1)
+        if (not o0["ok"] and o0.get("err") == "unsup") or (not o1["ok"] and o1.get("err") == "unsup"):
+            chk.stat("model sample: outside Build.v (references)")
+            continue
+        chk.stat("model sample: Build on both results vs the two implementation models")
+        if not bc.outcomes_agree(o0, run_["full"]):
+            disagreements.append({"case": cinfo, "impl": run_["full"], "model": ["Build(original)", o0]})
+        if not bc.outcomes_agree(o1, m["full"]):
+            disagreements.append({"case": dict(cinfo, mutated=m["text"]), "impl": m["full"], "model": ["Build(mutated)", o1]})
+        if fl == "T":
+            chk.stat("theorem C22_model_unchanged applies (fits)")
+            same = (o0["ok"] == o1["ok"]) and (_nopos(o0.get("value")) == _nopos(o1.get("value")) if o0["ok"] else o0.get("err") == o1.get("err"))
+            if not same:
+                disagreements.append({"case": cinfo, "impl": "model theorem conclusion", "model": [o0, o1]})
+            # the same statement on the implementation's two models
+            i0, i1 = run_["full"], m["full"]
+            if i0["ok"] != i1["ok"] or (i0["ok"] and _nopos(bc.strip_impl(i0["value"])) != _nopos(bc.strip_impl(i1["value"]))):
+                failures.append({"case": dict(cinfo, mutated=m["text"]), "tags": [], "impl": [i0, i1],
+                                 "what": "the model (object graph without positions) changed after the insertion"})
+        else:
+            chk.stat("model sample: tree condition fits fails")
     # behavioural failures (with a concrete failing input) first, then the static ones
     failures.sort(key=lambda f: 0 if "outside the declared active set" in f["what"] or "insertion" in f["what"] or "changed" in f["what"] else 1)
     decide(chk, failures + static_failures, disagreements)
